@@ -10,3 +10,7 @@ derived("""
 /-- window of `NormalizedReader` (`in_buffer` length) -/
 def normalizedReaderWindow : Nat := normalizedReaderBufSize / normalizedReaderWindowDiv
 """)
+
+# ---- util.rs fill_buffer: interrupted reads (D14c) ------------------------------------------
+flag("fixD14cFillBufferRetriesInterrupted", "src/util.rs", r"pub\(crate\) fn fill_buffer<R: std::io::Read>\(.*?Err\(err\) if err\.kind\(\) == std::io::ErrorKind::Interrupted => continue,.*?pub\(crate\) fn fill_buffer_bytes",
+     "D14c repaired: fill_buffer retries a read that was interrupted instead of returning the error and forgetting what it had read")
